@@ -754,6 +754,14 @@ func (r *runner) observe(n *core.Node, res *core.BlockResult) map[string]interfa
 		}
 	}
 	out["route"], out["routeErr"] = route, routeErr
+	// the callers every registered service refuses, as stored now (a permission update takes effect at once)
+	black := []m{}
+	for _, sv := range r.svcs {
+		for _, b := range n.ServiceBlacklist(sv) {
+			black = append(black, m{"svc": full(n, sv), "src": b})
+		}
+	}
+	out["black"] = black
 	if r.govMode {
 		props := []m{}
 		for _, pid := range r.pids {
@@ -1340,6 +1348,17 @@ func genPlan(rng *rand.Rand, name string, mode string) *Plan {
 			p.Steps = append(p.Steps, Step{Step: "empty", N: 1 + rng.Intn(3)})
 		case c < 18:
 			s := svcs[rng.Intn(len(svcs))]
+			if rng.Intn(3) == 0 {
+				// the owner of a service changes whom it refuses (nobody, or one of the others): no proposal, effective in the next block
+				cs := strings.Split(s, ":")
+				permits := ""
+				if o := svcs[rng.Intn(len(svcs))]; o != s && rng.Intn(4) > 0 {
+					permits = "1356:" + o
+				}
+				p.Steps = append(p.Steps, Step{Step: "submit", M: "UpdateService", By: "@admin-" + cs[0], Obj: s,
+					Args: []string{s, "name-" + cs[0] + "-" + cs[1], "intro", permits, "details", "reason"}})
+				continue
+			}
 			m := []string{"FreezeService", "ActivateService", "LogoutService", "FreezeAppchain", "ActivateAppchain"}[rng.Intn(5)]
 			obj := s
 			if strings.HasSuffix(m, "Appchain") {
@@ -1778,6 +1797,20 @@ func genRoles(rng *rand.Rand, name string) *Plan {
 		vote(np-1, rng.Intn(5) > 0)
 		submit("BindRole", "@aud1", "@nvp2", "r")
 		vote(np-1, rng.Intn(4) > 0)
+		open = nil
+	}
+	// a quarter: an admin (governance or audit) is frozen, then a logout or an activation of the frozen admin is proposed and
+	// mostly turned down: it has to be frozen again, not available
+	if len(open) == 0 && rng.Intn(4) == 0 {
+		who := []string{"@newadmin1", "@newadmin2", "@aud1"}[rng.Intn(3)]
+		if who != "@aud1" {
+			submit("RegisterRole", who, "governanceAdmin", "", "r")
+			vote(np-1, true)
+		}
+		submit("FreezeRole", who, "r")
+		vote(np-1, rng.Intn(6) > 0)
+		submit([]string{"LogoutRole", "LogoutRole", "ActivateRole"}[rng.Intn(3)], who, "r")
+		vote(np-1, rng.Intn(3) == 0)
 		open = nil
 	}
 	nsteps := 8 + rng.Intn(10)
